@@ -2,12 +2,13 @@
 (* Implementation-shaped model of dfir_rs/src/util/unsync/mpsc.rs, composed with the Mpsc
    monitor.  Fields as in `Shared<T>` / `Sender` / `Receiver`:
      ibuf     Shared.buffer            (VecDeque, push_back / pop_front)
-     wakers   Shared.send_wakers       (SmallVec: push at the end, wake_sender pops the END;
-                                        one entry per Pending poll -- duplicates are kept,
-                                        exactly as the code keeps them)
+     wakers   Shared.send_wakers       (SmallVec: one entry pushed per Pending poll -- duplicates
+                                        are kept, exactly as the code keeps them; poll_recv
+                                        wakes and removes ALL entries after popping a value)
      rwaker   Shared.recv_waker.is_some()
      weak     sender handles whose Weak still points at the live Rc (Receiver::close replaces
-              the Rc, which invalidates all of them; close_this_sender / drop remove one)
+              the Rc, which invalidates all of them; close_this_sender / drop remove one, both
+              after waking the receiver)
    One TLA+ step = one poll / call, which is atomic because the channel is single threaded.
    The scheduler polls a task that is runnable (has work and is not waiting, or waits and was
    woken) and -- constant SPURIOUS -- at most MaxSpur times per behaviour a task that waits and
@@ -72,9 +73,9 @@ SenderStep(t) ==
                [] kind = "try" ->
                     IF ~open THEN "closed" ELSE IF IFull THEN "full" ELSE "ok"
                [] OTHER -> "ok"
-        \* wake_receiver() is called after a push and by Drop (if upgrade succeeds);
-        \* close_this_sender just overwrites the Weak
-        wakesRx == (isData /\ r = "ok") \/ (kind = "drop" /\ open)
+        \* wake_receiver() is called after a push, and by Drop and close_this_sender (if the
+        \* upgrade succeeds) before the Weak goes away
+        wakesRx == (isData /\ r = "ok") \/ (kind \in {"drop", "close"} /\ open)
         w == IF wakesRx /\ rwaker THEN fl \cup {0} ELSE fl
     IN /\ ibuf' = IF isData /\ r = "ok" THEN Append(ibuf, item) ELSE ibuf
        /\ wakers' = IF r = "pending" THEN Append(wakers, t) ELSE wakers
@@ -92,10 +93,10 @@ RecvStep ==
         /\ MRecv("rclose", "ok", 0, fl \cup Range(wakers))
         /\ Record(0, "rclose", 0, "ok", 0, fl \cup Range(wakers))
     ELSE IF ibuf # <<>> THEN
-        \* pop_front; wake_sender pops the LAST waker
-        LET w == IF wakers # <<>> THEN fl \cup {wakers[Len(wakers)]} ELSE fl IN
+        \* pop_front; wake_all_senders drains send_wakers (stale entries cannot eat the wake-up)
+        LET w == fl \cup Range(wakers) IN
         /\ ibuf' = Tail(ibuf)
-        /\ wakers' = IF wakers # <<>> THEN SubSeq(wakers, 1, Len(wakers) - 1) ELSE wakers
+        /\ wakers' = <<>>
         /\ UNCHANGED <<rwaker, weak>>
         /\ MRecv("recv", "item", Head(ibuf), w)
         /\ Record(0, "recv", 0, "item", Head(ibuf), w)
@@ -142,9 +143,7 @@ SenderProgress == \A t \in 1..NSend : (st[t] = "wait") ~> (st[t] # "wait")
 RecvProgress == (st[0] = "wait" /\ (abuf # <<>> \/ alive = {})) ~> (st[0] # "wait")
 Settles == <>[]Quiescent
 
-\* generator output: one line per terminal state and per state in which the model itself breaks
-\* a C16 rule (so every predicted breakage is replayed against the real channel)
-Emit == (EMIT /\ (Terminal \/ Broken # {})) =>
-          PrintT(<<"CASE", ToJson([cap |-> cap, progs |-> progs, rclose |-> rclose, steps |-> hist,
-                                   broken |-> Broken])>>)
+\* generator output: one line per terminal state
+Emit == (EMIT /\ Terminal) =>
+          PrintT(<<"CASE", ToJson([cap |-> cap, progs |-> progs, rclose |-> rclose, steps |-> hist])>>)
 =============================================================================
